@@ -8,7 +8,12 @@ def split_frontmatter(text: str) -> tuple[str, str]:
     rest of the document. If no frontmatter is found, returns an empty string
     and the original text.
     """
-    lines = text.splitlines()
+    # Only LF and CRLF end a line. (`str.splitlines()` would also split at form feeds,
+    # vertical tabs, NEL, U+2028/U+2029, ... and silently turn them into newlines inside
+    # the frontmatter.)
+    lines = text.replace("\r\n", "\n").split("\n")
+    if lines and lines[-1] == "":
+        lines.pop()  # text ended with a newline (or is empty)
 
     # Skip empty lines at the beginning
     start_idx = 0
